@@ -262,6 +262,10 @@ def run_case(c, case):
         if "MULTIPLE" in s or "NO_" in s:
             c.inconc("model-not-determinate")
             return
+        from ..oracles import linre as _linre
+        if not _linre.square_solution_consistent(m.get_solution().T, m.get_eigenvalues()):
+            c.inconc("model-determinate-by-count-only(rank condition fails)")
+            return
         T = case["T"]
         start = ir.mm(2022, 3)
         span = ir.Span(start, start + (T - 1))
